@@ -30,6 +30,9 @@ T_root == T_slash
 T_evilAbs == T_http \o << "1", "9", "8", ".", "5", "1", ".", "1", "0", "0", ".", "9", ":", "8", "1" >> \o T_apix
 T_submitQ == << "/", "s", "u", "b", "m", "i", "t", "?", "q", "=", "1" >>
 T_ws == << "/", "w", "s" >>
+T_apislash == T_api \o T_slash
+\* an authority-form target (CONNECT): it has no path at all
+T_authority == << "o", "r", "g", ".", "t", "e", "s", "t", ":", "4", "4", "3" >>
 
 NoCl == [present |-> FALSE, text |-> << >>]
 Cl(t) == [present |-> TRUE, text |-> t]
@@ -121,7 +124,11 @@ UpgradeSets == { << "up", { << "upgrade", "websocket" >>, << "connection", "Upgr
 
 MainCfgs == { Cfg(st, rp, FALSE, "lo4") : st \in BOOLEAN, rp \in { NoRp, Rp(T_api), Rp(SpeedSeg) } }
 
-RpName(c) == IF ~c.rp.on THEN "norp" ELSE IF c.rp.mask = T_api THEN "rpapi" ELSE "rpspeed"
+RpName(c) == IF ~c.rp.on THEN "norp" ELSE IF c.rp.mask = T_api THEN "rpapi" ELSE IF c.rp.mask = T_slash THEN "rproot"
+             ELSE IF c.rp.mask = T_apislash THEN "rpapislash" ELSE "rpspeed"
+
+\* masks at the edges: "/" (everything that has a path), and a mask that ends in a slash (covers "/api/x", not "/api")
+MaskCfgs == { Cfg(st, rp, FALSE, "lo4") : st \in BOOLEAN, rp \in { Rp(T_slash), Rp(T_apislash) } }
 
 MainVecs ==
     { Vec("main", pr,
@@ -129,6 +136,19 @@ MainVecs ==
               "GET", p[2], mk[2] \cup up[2], NoCl),
           c, TRUE)
       : pr \in Protos, mk \in MarkerSets, p \in MainPaths, up \in UpgradeSets, c \in MainCfgs }
+
+\* tunnel requests in authority form have no path: no path mask - not even "/" - takes them away from the tunnel
+MainConnectVecs ==
+    { Vec("main", pr,
+          Req("main.connect." \o up[1] \o "." \o (IF c.speedtest THEN "st" ELSE "nost") \o "." \o RpName(c), "CONNECT", T_authority, up[2], NoCl),
+          c, TRUE)
+      : pr \in Protos, up \in UpgradeSets, c \in MainCfgs \cup MaskCfgs }
+
+MainMaskVecs ==
+    { Vec("main", pr,
+          Req("main.mask." \o p[1] \o "." \o up[1] \o "." \o (IF c.speedtest THEN "st" ELSE "nost") \o "." \o RpName(c), "GET", p[2], up[2], NoCl),
+          c, TRUE)
+      : pr \in Protos, p \in { << "api", T_api >>, << "apix", T_apix >>, << "other", T_other >>, << "root", T_root >> }, up \in UpgradeSets, c \in MaskCfgs }
 
 \* the documented speedtest requests behind the "/speed/" marker, bounds included
 MainSpeedReqs ==
@@ -163,7 +183,7 @@ RpVecs ==
 
 --------------------------------------------------------------------------
 
-TableVecs == SpeedtestVecs \cup PingVecs \cup MainVecs \cup MainSpeedVecs \cup RpVecs
+TableVecs == SpeedtestVecs \cup PingVecs \cup MainVecs \cup MainConnectVecs \cup MainMaskVecs \cup MainSpeedVecs \cup RpVecs
 
 BpVec == Vec("speedtest", "h1", Req("bp.n1", "GET", NmbBin(Dec(1)), {}, NoCl), PlainCfg, TRUE)
 
